@@ -23,7 +23,7 @@ pub fn def() -> PropDef {
         rule: "case = program of 1..40 steps over registers (3 G1, 3 G2, 3 Fr) starting from generators and identity; steps: add, sub, neg, scalar multiplication by an Fr register (both operator forms) or by a constant from {0,1,2,r-1}, normalize, affine round-trip, encode/decode round-trip in each of the three formats, copy, Fr load/add/sub/mul; after every step the written register is compared with a freshly computed one()*dlog (is_zero, ==, == against every other register, and the three encodings for non-identity values); at the end pairings of selected register pairs through all three entry points must equal e(P1,P2)^(ab). Exhaustive part: every program of depth <= 2 over both groups (quick) and additionally every depth-3 program per group (thorough) over 2 registers and the scalar alphabet {0,1,2,r-1}. non-trivial = an identity produced by arithmetic or a value in mixed representation is consumed by a later step or observation; distinct by program",
         required: crate::runner::req(&[
             "consumed:arith-identity", "consumed:decoded-in-arith", "op:add", "op:sub", "op:neg", "op:mul", "op:rmul", "op:mulconst", "op:normalize", "op:affine", "op:codec-raw", "op:codec-uncompressed",
-            "op:codec-compressed", "op:copy", "op:fr", "pairing:with-identity", "pairing:nonidentity",
+            "op:codec-compressed", "op:copy", "op:mul-lambda", "op:fr", "pairing:with-identity", "pairing:nonidentity",
         ]),
         enumerate: Some(enumerate),
         enumerate_note: "all programs of depth <= 2 over {G1,G2} x 2 registers x 48 steps per group (96 + 96^2 programs) [quick+thorough]; all depth-3 programs within one group (2 x 48^3) [thorough]; each followed by the closing pairing observations — these sub-spaces are exhaustive",
@@ -174,16 +174,27 @@ fn step_group<G: Grp>(rg: &mut Regs<G>, fr: &[Fr; 3], mk: &[BigUint; 3], op: usi
                 }
             }
         }
+        15 => {
+            // multiplication by an eigenvalue of the order-3 endomorphism (random programs only): creates registers whose
+            // points share y with, or have the opposite y of, another register while differing in x
+            info.class("op:mul-lambda");
+            mark_consumed(rg, &[a], info, true);
+            let l = crate::gen::lambda_r();
+            let l = if c % 2 == 0 { l.clone() } else { (l * l) % r };
+            let l = if c >= 2 { (r - &l) % r } else { l };
+            what = format!("{}[{}] = {}[{}] * {:x} (endomorphism eigenvalue)", G::NAME, d, G::NAME, a, l);
+            (rg.v[a] * fr_of(&l), (&rg.k[a] * &l) % r, false)
+        }
         _ => {
             info.class("op:copy");
             what = format!("{}[{}] = {}[{}]", G::NAME, d, G::NAME, a);
             (rg.v[a], rg.k[a].clone(), rg.decoded[a])
         }
     };
-    let arith = op <= 8;
+    let arith = op <= 8 || op == 15;
     let produced_identity = arith && nk.is_zero() && !(op >= 5 && false);
     rg.v[d] = nv;
-    rg.arith_identity[d] = if arith { produced_identity } else if op == 14 || op == 15 { rg.arith_identity[a] } else { rg.arith_identity[a] && nk.is_zero() };
+    rg.arith_identity[d] = if arith { produced_identity } else if op == 14 { rg.arith_identity[a] } else { rg.arith_identity[a] && nk.is_zero() };
     rg.k[d] = nk;
     rg.decoded[d] = decoded;
     audit::<G>(rg, d, step, &what)?;
